@@ -115,3 +115,77 @@ Proof.
     constructor; cbn; try discriminate; [apply InvU_init|reflexivity|intros a []].
   - exact Hops.
 Qed.
+
+(* ------------------------------------------------------------------ rf_write_blocks, gapped mode *)
+From DRF Require Import Proofs.WriterMultiIdx Proofs.WriterMulti.
+
+(* the Python pre-validation is exactly py_arrays_ok *)
+Lemma py_blocks_validation c ps G D vec :
+  py_arrays_ok (p_next ps) (zlen vec) G D = false ->
+  exists code, py_rf_write_blocks c ps G D vec = ((ValueError, code), ps).
+Proof.
+  unfold py_arrays_ok, py_rf_write_blocks. fold (zlen vec).
+  destruct G as [|g0 G']; [intros _; eexists; reflexivity|].
+  destruct D as [|d0 D']; [intros _; eexists; reflexivity|].
+  intros H.
+  destruct (g0 <? p_next ps); [eexists; reflexivity|].
+  destruct (d0 =? 0); cbn [negb]; [|eexists; reflexivity].
+  destruct (Nat.eqb (length (g0 :: G')) (length (d0 :: D'))); cbn [negb]; [|eexists; reflexivity].
+  destruct (existsb (fun x => x <? 1) (diffs (d0 :: D'))); [eexists; reflexivity|].
+  destruct (existsb (fun x => x <? 1) (diffs (g0 :: G'))); [eexists; reflexivity|].
+  destruct (last (d0 :: D') 0 >=? zlen vec); [eexists; reflexivity|].
+  destruct (any2 Z.gtb (diffs (d0 :: D')) (diffs (g0 :: G'))); [eexists; reflexivity|].
+  cbn in H. discriminate.
+Qed.
+
+Lemma py_blocks_accepted c ps G D vec :
+  py_arrays_ok (p_next ps) (zlen vec) G D = true -> p_closed ps = false ->
+  py_rf_write_blocks c ps G D vec =
+    (let '(rc, w') := if c_cont c && (1 <? Z.of_nat (length G)) then split_blocks c (p_w ps) G D vec (zlen vec)
+                      else write_blocks c (p_w ps) (combine G D) vec in
+     if negb (rc =? 0) then ((RuntimeError, 0), mkPy (p_next ps) (p_written ps) (p_gap ps) false w')
+     else ((OK, w_gi w'), mkPy (w_gi w') (p_written ps + zlen vec) (p_gap ps + ((w_gi w' - p_next ps) - zlen vec)) false w')).
+Proof.
+  unfold py_arrays_ok, py_rf_write_blocks. fold (zlen vec).
+  destruct G as [|g0 G']; [discriminate|]. destruct D as [|d0 D']; [discriminate|].
+  intros H Hcl. repeat (apply andb_true_iff in H as [H ?]).
+  repeat match goal with Hx : negb _ = true |- _ => apply negb_true_iff in Hx end.
+  repeat match goal with Hx : _ = false |- _ => rewrite Hx end.
+  repeat match goal with Hx : _ = true |- _ => rewrite Hx end.
+  cbn [negb]. reflexivity.
+Qed.
+
+(* gapped mode: an rf_write_blocks call with arrays the Python validation accepts succeeds, returns the
+   Spec cursor (one past the call's highest index) and keeps the refinement; any other call raises
+   ValueError and changes nothing *)
+Theorem py_rf_write_blocks_gapped c ps s G D vec :
+  vcfg c -> c_chunk c = true -> c_cont c = false ->
+  PyInv (refines c) ps s -> first_nonneg (combine G D) ->
+  if py_arrays_ok (s_cur s) (zlen vec) G D
+  then fst (py_rf_write_blocks c ps G D vec) = (OK, blocks_end (combine G D) (zlen vec)) /\
+       PyInv (refines c) (snd (py_rf_write_blocks c ps G D vec)) (spec_step_blocks c s (combine G D, vec))
+  else (exists code, py_rf_write_blocks c ps G D vec = ((ValueError, code), ps)).
+Proof.
+  intros Hc Hch Hco (Hcl & HR & Hn & H0) Hnn.
+  destruct (py_arrays_ok (s_cur s) (zlen vec) G D) eqn:Eok.
+  - rewrite <- Hn in Eok. rewrite (py_blocks_accepted c ps G D vec Eok Hcl). rewrite Hco. cbn [andb].
+    pose proof (py_valid_implies_c_valid _ _ _ _ Eok) as Hv.
+    destruct HR as (HI & Hgi & Hlk & Hso).
+    rewrite Hn, <- Hgi in Hv.
+    destruct (write_blocks_chunked c (p_w ps) (combine G D) vec Hc Hch HI Hv ltac:(rewrite Hco; reflexivity) Hnn)
+      as (st' & Hw & HI' & Hgi' & Hso' & Hlk').
+    rewrite Hw. cbn [Z.eqb negb fst snd]. rewrite Hgi'. split; [reflexivity|].
+    unfold PyInv. cbn [p_closed p_w p_next]. split; [reflexivity|].
+    assert (Ha : accepted c (s_cur s) (combine G D) vec = true).
+    { unfold accepted. rewrite Hco. cbn [andb negb]. rewrite andb_true_r. rewrite <- Hgi. exact Hv. }
+    unfold spec_step_blocks. rewrite Ha. cbn [s_cur s_map].
+    split; [|split; [reflexivity|]].
+    + split; [exact HI'|]. split; [cbn [s_cur]; exact Hgi'|]. split; [|exact (Hso' Hso)].
+      intros k. cbn [s_map]. rewrite Hlk', Hlk. reflexivity.
+    + (* the new cursor is >= 0: it is >= the old one *)
+      destruct (valid_arrays_wf _ _ _ Hv) as (g0 & tl & E & Hge & Hvl & Hwf).
+      rewrite E in *. cbn [blocks_end].
+      destruct (rows_wf_end tl g0 0 (zlen vec) _ Hwf) as (Hwf' & _). cbn [first_nonneg] in Hnn.
+      pose proof (rows_wf_first_lt_top tl (zlen vec) _ g0 0 Hwf'). lia.
+  - rewrite <- Hn in Eok. exact (py_blocks_validation c ps G D vec Eok).
+Qed.
